@@ -13,7 +13,7 @@ FATAL = {
     # the accounting predicates count against C05 from the step at which an allocation was refused on
     "C05": {"always": ("FailAtomic",), "when": {"inj": ("RcOK", "BlocksOK", "EndClean", "TextOK", "Isolation", "Utf8OK", "ResultOK", "Abort")},
             "shim": MEMSHIM, "shim_when": "inj", "must_exercise": ("FailAtomic",)},
-    "C06": {"always": ("SizeSafe",), "when": {"size": ("RcOK", "BlocksOK", "EndClean", "TextOK", "Isolation", "Utf8OK", "CapOK", "WithCap", "ReservePost", "ResultOK", "Abort")},
+    "C06": {"always": ("SizeSafe",), "when": {"size": ("RcOK", "BlocksOK", "EndClean", "TextOK", "Isolation", "Utf8OK", "CapOK", "WithCap", "ReservePost", "ResultOK", "Abort")}, "conv": ("BigSizeOK",),
             "shim": MEMSHIM, "shim_when": "size", "must_exercise": ("SizeSafe",)},
     "C07": {"always": ("RejectedIsNoop", "Utf8OK", "ResultOK.index"), "must_exercise": ("RejectedIsNoop",)},
     "C08": {"always": ("CloneCheap",), "must_exercise": ("CloneCheap",), "conv": ("BigCloneOK",)},
@@ -31,7 +31,7 @@ FATAL = {
             "must_exercise": ("StaticBorrow",)},
     "C11": {"always": ("CapOK", "WithCap", "ReservePost", "NoReallocInCap"), "must_exercise": ("WithCap", "ReservePost", "NoReallocInCap"), "conv": ("NoMoveOK", "BigOpOK")},
     "C12": {"always": ("Growth",), "must_exercise": ("Growth",), "conv": ("GrowOK", "LoopOK")},
-    "C13": {"always": ("ShrinkPost",), "must_exercise": ("ShrinkPost",)},
+    "C13": {"always": ("ShrinkPost",), "must_exercise": ("ShrinkPost",), "conv": ("ShrinkOK",)},
     "C04": {},
     "C14": {"conv": ("IntText",)},
     "C15": {"conv": ("BoolText", "CharText", "StrText", "DispOK", "FloatOK"), "always": ("ResultOK.display", "TextOK.display")},
@@ -88,14 +88,14 @@ PROFILES = {
             "thorough": [conc("own2", "{1,2}", "cQuick2", sample_every=10), conc("lend3", "{1,2,3}", "cLend2", sample_every=10), conc("from2", "{1,2}", "cFrom2", sample_every=10),
                          conc("lendfrom", "{1,2,3}", "cLendFrom", sample_every=10), conc("own3", "{1,2,3}", "cOwn3", sample_every=40), conc("deep2", "{1,2}", "cDeep2", sample_every=200, workers=14)]},
     "C05": {"quick": [FAIL2, dq("fail")], "thorough": [FAILP, SEED2, dt("fail")]},
-    "C06": {"quick": [SIZES2, dq("sizes")], "thorough": [SIZES2, SHRINK2, dt("sizes")]},
+    "C06": {"quick": [SIZES2, SCALE, dq("sizes")], "thorough": [SIZES2, SHRINK2, SCALE, dt("sizes")]},
     "C07": {"quick": [IDX1, CORE3, dq("mixed")], "thorough": [IDX1, CORE4, SEED2, dt("mixed")]},
     "C08": {"quick": [SEED2, PAIRS2, SCALE, dq("mixed")], "thorough": [SEED3, CORE4, CORE3H, SCALE, dt("mixed")]},
     "C09": {"quick": [SEED2, FINAL2, CONV, dq("mixed")], "thorough": [SEED3, CORE4, FINAL2, CONV, dt("mixed")]},
     "C10": {"quick": [SEED2, dq("mixed")], "thorough": [SEED3, CORE4, dt("mixed")]},
     "C11": {"quick": [SEED2, CORE3, FAIL2, SCALE, PROOF, dq("all")], "thorough": [SEED3, CORE4, FAIL2, SIZES2, SHRINK2, SCALE, PROOF, dt("all")]},
     "C12": {"quick": [SEED2, CORE3, FAIL2, SCALE, dq("all")], "thorough": [SEED3, CORE4, FAIL2, SIZES2, SHRINK2, SCALE, dt("all")]},
-    "C13": {"quick": [SEED2, SHRINK2, FAIL2, dq("all")], "thorough": [SEED3, CORE4, SHRINK2, FAIL2, SIZES2, dt("all")]},
+    "C13": {"quick": [SEED2, SHRINK2, FAIL2, SCALE, dq("all")], "thorough": [SEED3, CORE4, SHRINK2, FAIL2, SIZES2, SCALE, dt("all")]},
     "C14": {"quick": [CONV], "thorough": [CONV, {"kind": "sweep", "what": "u32"}, {"kind": "sweep", "what": "i32"}]},
     "C15": {"quick": [CONV, SEED1], "thorough": [CONV, SEED2, {"kind": "sweep", "what": "f32"}]},
     "C16": {"quick": [{"kind": "codec", "cfg": "MC_Codec_u8_q"}, {"kind": "codec", "cfg": "MC_Codec_u16_q"}, mc("MC_Decode_d2"), dq("mixed")],
